@@ -2,6 +2,7 @@
 pub mod drive;
 pub mod fault;
 pub mod gen;
+pub mod lits;
 pub mod palette;
 pub mod rt;
 pub mod sgr;
